@@ -1129,3 +1129,143 @@ def limit_cases(rng):
     vt = ('(', tuple([ty] + ['i'] * (MAX_SIGNATURE - 2 - A - 1)))
     add('variant-signature-255-with-arrays-32', ['v'], [('V', vt, [sv] + [0] * (MAX_SIGNATURE - 2 - A - 1))])
     return out
+
+
+# ---------------------------------------------------------------------------- state-leak round: deterministic histories
+# (2026-09-30)  Sequences of uses inside ONE scenario, for the codec harnesses (C01, C02): signatures that share a
+# suffix, groups of Python values that are `==` / equal-hash but of different classes.  Nothing here calls txdbus's
+# inference: the type of a member is written from its class alone.
+def suffix_shapes(rng, used, want_fd=False, max_len=40):
+    """A FRESH suffix signature S (two or more complete types; not in `used`, which is updated) and the signatures a
+    history walks through: `X a S` (an array whose element type is the first type of S, then the rest of S - the splitter
+    meets S as "everything after the `a`"), `S` itself, `(S)`, `a(S)`, and `X a S` behind a longer prefix.
+    -> (S as a list of types, {name: list of types})."""
+    for _ in range(200):
+        n = rng.choice([2, 2, 2, 3, 3, 4])
+        S = [gen_type(rng, rng.choice([0, 0, 0, 1, 1, 2])) for _ in range(n)]
+        if want_fd and 'h' not in render_all(S):
+            S[rng.randrange(len(S))] = rng.choice(['h', 'h', ('a', 'h'), ('(', ('h', 's'))])
+        if not want_fd and 'h' in render_all(S):
+            continue
+        s = render_all(S)
+        if s in used or len(s) > max_len:
+            continue
+        used.add(s)
+        break
+    else:
+        raise RuntimeError('no fresh suffix signature left')
+    allow_fd = want_fd
+    X = [gen_type(rng, 1, allow_fd=allow_fd) for _ in range(rng.choice([0, 1, 1, 2]))]
+    X2 = X + [gen_type(rng, 1, allow_fd=allow_fd)]
+    shapes = {
+        'XaS': X + [('a', S[0])] + S[1:],
+        'S': list(S),
+        '(S)': [('(', tuple(S))],
+        'a(S)': [('a', ('(', tuple(S)))],
+        'X2aS': X2 + [('a', S[0])] + S[1:],
+    }
+    return S, shapes
+
+
+def ladder_numbers(k):
+    """Members (type, spec value, Python value) that are all `==` k and hash alike but belong to different classes:
+    plain int, float, every integer wrapper, and for 0 / 1 also bool and the Boolean wrapper.  0 <= k <= 255."""
+    m = _m()
+    out = [(plain_int_type(k), k, k), ('d', float(k), float(k))]
+    for c in 'ynqiuxt':
+        out.append((c, k, getattr(m, WRAPPER[c])(k)))
+    if k in (0, 1):
+        out += [('b', bool(k), bool(k)), ('b', bool(k), m.Boolean(k))]
+    return out
+
+
+def ladder_strings(i):
+    """Two groups of equal strings of different classes: (plain str, ObjectPath) and (plain str, Signature)."""
+    m = _m()
+    p = '/eq%d/p' % i
+    g = 'a' * (i % 5) + 'i' + 'u' * (i % 3)
+    return [[('s', p, p), ('o', p, m.ObjectPath(p))], [('s', g, g), ('g', g, m.Signature(g))]]
+
+
+LADDER_CONTEXTS = ['v', 'v(ms)', 'v((m))', 'va{ms}', 'v[m]', 'a{sv}', 'av', 'v(sm)m']
+
+
+def ladder_case(context, member, tag='x'):
+    """(types, spec values, Python values) of one member in one context: bare in a variant, as a field of a tuple, in a
+    nested tuple, as a dict key, in a one-element list, as a value of an `a{sv}` dict, as an element of `av`, and twice
+    in one call."""
+    t, s, p = member
+    if context == 'v':
+        return ['v'], [('V', t, s)], [p]
+    if context == 'v(ms)':
+        return ['v'], [('V', ('(', (t, 's')), [s, tag])], [(p, tag)]
+    if context == 'v((m))':
+        return ['v'], [('V', ('(', (('(', (t,)),)), [[s]])], [((p,),)]
+    if context == 'va{ms}':
+        return ['v'], [('V', ('a', ('{', t, 's')), [(s, tag)])], [{p: tag}]
+    if context == 'v[m]':
+        return ['v'], [('V', ('a', t), [s])], [[p]]
+    if context == 'a{sv}':
+        return [('a', ('{', 's', 'v'))], [[(tag, ('V', t, s))]], [{tag: p}]
+    if context == 'av':
+        return [('a', 'v')], [[('V', t, s)]], [[p]]
+    if context == 'v(sm)m':
+        return ['v', 'v'], [('V', ('(', ('s', t)), [tag, s]), ('V', t, s)], [(tag, p), p]
+    raise ValueError(context)
+
+
+def ladders(n_numbers=9, all_rotations=False):
+    """Deterministic list of (name, [ (context, member), ... ]): per context and per group of equal members one sequence
+    in which every member appears, the class that comes FIRST rotating from group to group (the numbers / strings of two
+    sequences differ, so each sequence meets its group for the first time)."""
+    out = []
+    numbers = [1, 0, 2, 3, 5, 7, 100, 200, 255, 4, 6, 8, 9, 10, 11, 12, 13, 14, 15, 16][:n_numbers]
+    si = 0
+    for ci, context in enumerate(LADDER_CONTEXTS):
+        for ki, k in enumerate(numbers):
+            members = ladder_numbers(k)
+            rots = range(len(members)) if all_rotations else [(ci + ki) % len(members)]
+            for r in rots:
+                seq = members[r:] + members[:r]
+                out.append(('%s:%d:rot%d' % (context, k, r), [(context, mb, 'x%d' % k) for mb in seq]))
+        for _ in range(2 if not all_rotations else 4):
+            for group in ladder_strings(si):
+                seq = group if si % 2 == 0 else group[::-1]
+                out.append(('%s:%s:%s-first' % (context, seq[0][1], seq[0][0]), [(context, mb, 'x') for mb in seq]))
+            si += 1
+    return out
+
+
+def damage(rng, body, le):
+    """A damaged copy of an encoding (truncated, bytes flipped, a length word overwritten, bytes inserted) -> (kind, bytes)."""
+    body = bytearray(body)
+    kind = rng.choice(['truncate', 'truncate', 'flip', 'flip', 'len', 'insert'])
+    if kind == 'truncate' and body:
+        body = body[:rng.randrange(len(body))]
+    elif kind == 'flip' and body:
+        for _ in range(rng.choice([1, 1, 2, 4])):
+            i = rng.randrange(len(body))
+            body[i] = rng.choice([0, 1, 2, 4, 7, 8, 0x7f, 0x80, 0xff, body[i] ^ (1 << rng.randrange(8))])
+    elif kind == 'len' and len(body) >= 4:
+        i = rng.randrange(0, len(body) - 3)
+        body[i:i + 4] = struct.pack('<I' if le else '>I', rng.choice([0, 1, 3, 4, 5, 7, 8, 9, 16, 255, 256, 65536,
+                                                                    2 ** 26, 2 ** 31, 2 ** 32 - 1, len(body)]))
+    elif kind == 'insert' and body:
+        i = rng.randrange(len(body) + 1)
+        body[i:i] = bytes(rng.choice([0, 1, 0xff]) for _ in range(rng.choice([1, 2, 4])))
+    return kind, bytes(body)
+
+
+def map_fds(ty, sv, f):
+    """The spec value with every descriptor `d` replaced by `f(d)` (same wire bytes: the wire carries indices)."""
+    if isinstance(ty, str):
+        if ty == 'h':
+            return f(sv)
+        if ty == 'v':
+            return ('V', sv[1], map_fds(sv[1], sv[2], f))
+        return sv
+    if ty[0] == 'a':
+        return [map_fds(ty[1], e, f) for e in sv]
+    if ty[0] == '(':
+        return [map_fds(t, e, f) for t, e in zip(ty[1], sv)]
+    return (map_fds(ty[1], sv[0], f), map_fds(ty[2], sv[1], f))
